@@ -259,6 +259,14 @@ def eval_c09(ctx, tr):
         x = evs[lab]
         if lab in explicit:
             ctx.check('C09.explicit_kept', x.event_parent_id == explicit[lab], ev=lab)
+            if fd.caller in tr.Eh:
+                # dispatched from inside a handler: still that handler's child (exactly once), whatever parent id it carries
+                r = result_of(fd.caller)
+                n_here = sum(1 for c in (r.event_children if r is not None else []) if c is x)
+                n_else = sum(1 for (l2, r2) in all_results if r2 is not r for c in r2.event_children if c is x)
+                first_dr = next((d for d in tr.DR if d.ev == lab), None)
+                if first_dr is not None and first_dr.caller == fd.caller:
+                    ctx.check('C09.child_once', n_here == 1 and n_else == 0, ev=lab, here=n_here, elsewhere=n_else, explicit_parent=True)
         elif fd.caller in tr.Eh:
             pe = evs[tr.Eh[fd.caller].ev]
             ctx.check('C09.parent', x.event_parent_id == pe.event_id, ev=lab, expected=tr.Eh[fd.caller].ev,
